@@ -312,3 +312,59 @@ func TestC14SaltSpread(t *testing.T) {
 		vlib.Class(fmt.Sprintf("salt-spread-checked:%d-byte", n))
 	}
 }
+
+// TestC14ConcurrentWrites: several writers on one store.Dir at the same time (distinct users): every record still pairs its own
+// fresh salt with the digest of its own password under the configured parameters.
+func TestC14ConcurrentWrites(t *testing.T) {
+	rapid.Check(t, func(t *rapid.T) {
+		root, base := tmpBase(t)
+		defer os.RemoveAll(root)
+		cfg := &vlib.Config{Sets: []*vlib.ParamSet{vlib.GenParamSetWide(t, 1), vlib.GenParamSetWide(t, 2)}}
+		cfg.Default = uint(rapid.IntRange(1, 2).Draw(t, "default"))
+		d, err := cfg.OpenDir(base, true)
+		if err != nil {
+			t.Fatalf("VIOLATION C14: configuration refused: %v", err)
+		}
+		n := rapid.IntRange(2, 8).Draw(t, "writers")
+		rounds := rapid.IntRange(1, 3).Draw(t, "rounds")
+		pws := make([]string, n)
+		for i := range pws {
+			pws[i], _ = vlib.GenPassword(t, fmt.Sprintf("pw%d", i))
+		}
+		for r := 0; r < rounds; r++ {
+			var wg sync.WaitGroup
+			errs := make([]error, n)
+			t0 := time.Now().Unix()
+			for i := 0; i < n; i++ {
+				wg.Add(1)
+				go func(i int) {
+					defer wg.Done()
+					u := fmt.Sprintf("w%d", i)
+					if r == 0 {
+						errs[i] = d.AddUser(u, pws[i], false)
+					} else {
+						errs[i] = d.UpdateUser(u, pws[i]+fmt.Sprint(r))
+					}
+				}(i)
+			}
+			wg.Wait()
+			t1 := time.Now().Unix()
+			for i := 0; i < n; i++ {
+				vlib.Eval()
+				if errs[i] != nil {
+					t.Fatalf("VIOLATION C14: concurrent write %d failed: %v", i, errs[i])
+				}
+				pw := pws[i]
+				if r > 0 {
+					pw += fmt.Sprint(r)
+				}
+				content, _ := os.ReadFile(fileOf(base, fmt.Sprintf("w%d", i), false))
+				if msg := checkRecord(cfg, content, pw, nil, t0, t1, fmt.Sprintf("concurrent writer %d round %d", i, r)); msg != "" {
+					t.Fatalf("VIOLATION C14: with %d writers at the same time, record of w%d: %s", n, i, msg)
+				}
+			}
+		}
+		vlib.NT("c14conc", cfg.Set(cfg.Default).Alg, n, rounds)
+		vlib.Class("concurrent-writers")
+	})
+}
